@@ -54,6 +54,18 @@ func failingStreams(c *Ctx, prog *LazyProgram, depth, maxDev int, max int) [][]u
 	return out
 }
 
+// WithFirstCase installs words as the bitstream of every PRNG stream seeded with seed while f runs.
+func WithFirstCase(seed uint64, words []uint64, f func()) {
+	rapid.VerifSetWordEnv(func(sd uint64, idx int, n int, real uint64) uint64 {
+		if sd == seed && idx < len(words) {
+			return words[idx]
+		}
+		return real
+	})
+	defer rapid.VerifSetWordEnv(nil)
+	f()
+}
+
 // RunCheckWithFirstCase runs Check with the given words as the bitstream of the first test case.
 func RunCheckWithFirstCase(p *LazyProgram, env *Env, cfg Config, words []uint64) *RunLog {
 	first := cfg.Seed
